@@ -5,7 +5,7 @@ PATCH="$1"; shift
 WT=/tmp/mut/wt.$$
 mkdir -p /tmp/mut
 git -C /repo worktree add -q --detach "$WT" HEAD || exit 2
-if ! git -C "$WT" apply "$PATCH"; then echo "PATCH-DOES-NOT-APPLY"; git -C /repo worktree remove --force "$WT"; exit 2; fi
+if ! git -C "$WT" apply "$PATCH" 2>/dev/null && ! git -C "$WT" apply -3 "$PATCH" 2>/dev/null && ! (cd "$WT" && patch -p1 -F3 --no-backup-if-mismatch < "$PATCH" >/dev/null 2>&1); then echo "PATCH-DOES-NOT-APPLY"; git -C /repo worktree remove --force "$WT"; exit 2; fi
 cd "$(dirname "$0")/.." || exit 2
 for P in "$@"; do
   VERIF_REPO="$WT" VERIF_SEED="${VERIF_SEED:-0}" ./check "$P" --tier "${VERIF_TIER:-quick}" > /tmp/mut/out.$$.$P 2>&1
